@@ -151,8 +151,8 @@ Proof.
   intros Hb Hq Hi H. pose proof (wf_act _ _ _ _ _ Hb Hq Hi) as Hw. unfold act_wf in Hw.
   apply andb_true_iff in Hw as [Hw _]. apply andb_true_iff in Hw as [_ Hw].
   unfold act_open. destruct H as [H|[H H0]].
-  - rewrite H in *. simpl in Hw. apply Nat.eqb_eq in Hw. rewrite Hw. split; reflexivity.
-  - rewrite H, H0. split; reflexivity.
+  - rewrite H in *. simpl in Hw. apply Nat.eqb_eq in Hw. split; [reflexivity|exact Hw].
+  - rewrite H. split; [reflexivity|exact H0].
 Qed.
 
 (* every action of a NotStarted sequence may run *)
